@@ -103,7 +103,7 @@ def shard(i, n, args):
 
 def main(tier):
     rep = common.Report("C10", tier)
-    nsh = 4 if tier == "quick" else common.NCPU
+    nsh = min(8, common.NCPU) if tier == "quick" else common.NCPU
     if ctx.focus() is not None:
         nsh = 2
     results, inconc = common.run_shards("c10", nsh, args=[tier])
